@@ -298,6 +298,16 @@ def lt_numeric(res: CheckResult, prog: Program):
                 '' if ok else f'__lt__ is {norm(rets[0].value) if rets else "?"}', fi.file, fi.node.lineno)
         dec = 'total_ordering' in ci.decorators or 'functools.total_ordering' in ci.decorators
         res.add('LT-NUMERIC', cname, '@total_ordering', dec, '' if dec else f'{cname} lost @total_ordering', fi.file, ci.node.lineno)
+    # no subclass may re-define the ordering
+    for base in ('MosFile', 'MosReader'):
+        for c in prog.subclasses(prog.cls(base)):
+            if c.name == base:
+                continue
+            for d in ('__lt__', '__le__', '__gt__', '__ge__', '__eq__', '__hash__', 'message_id'):
+                if d in c.methods:
+                    f = c.methods[d]
+                    res.add('LT-NUMERIC', f.short, f'{c.name} overrides {d}', False,
+                            f'{c.name} re-defines {d}: objects of this class no longer sort by numeric message id', f.file, f.node.lineno)
     fi = prog.func('MosFile.message_id')
     rets = [r for r in ast.walk(fi.node) if isinstance(r, ast.Return) and r.value is not None]
     ok = bool(rets) and all(isinstance(r.value, ast.Call) and attr_chain(r.value.func) == 'int' and 'messageID' in norm(r.value) for r in rets)
@@ -324,7 +334,9 @@ def order_preserved(res: CheckResult, prog: Program):
         if stores or bad or name in ('_validate', 'merge', '__init__'):
             ok = not bad
             for s in stores:
-                if not isinstance(s.value, (ast.ListComp, ast.Name, ast.Attribute)):
+                copy_call = isinstance(s.value, ast.Call) and attr_chain(s.value.func) in ('list', 'tuple') and len(s.value.args) == 1 \
+                    and attr_chain(s.value.args[0]) in ('self.mos_readers', 'self._mos_readers', 'mos_readers')
+                if not isinstance(s.value, (ast.ListComp, ast.Name, ast.Attribute)) and not copy_call:
                     ok = False
                 if isinstance(s.value, ast.ListComp) and (len(s.value.generators) != 1 or attr_chain(s.value.generators[0].iter) not in ('self.mos_readers', 'self._mos_readers')):
                     ok = False
